@@ -207,7 +207,8 @@ RECURSIVE PrintStrict(_, _, _, _, _), PrintLazy(_, _, _, _, _, _, _)
 PrintStrict(cx, vals, i, env, w) ==
   IF i > Len(vals) THEN Ok(VNull, w)
   ELSE IF vals[i].k = "str" THEN PrintStrict(cx, vals, i + 1, env, w)
-  ELSE LET r == Eval(cx, vals[i], env, w) IN IF ~r.ok THEN r ELSE PrintStrict(cx, vals, i + 1, env, r.w)
+  ELSE LET r == Eval(cx, vals[i], env, w) IN
+       IF ~r.ok THEN r ELSE PrintStrict(cx, vals, i + 1, env, NoteText("print", <<r.v>>, r.w))
 PrintLazy(cx, vals, i, env, w, dbg, acc) ==
   IF i > Len(vals) THEN Ok(acc, w)
   ELSE IF vals[i].k = "str" THEN PrintLazy(cx, vals, i + 1, env, w, dbg, Append(acc, [txt |-> TRUE, lz |-> LVal(VNull)]))
@@ -350,7 +351,8 @@ RECURSIVE DeferredPrint(_, _, _, _)
 DeferredPrint(cx, args, i, w) ==
   IF i > Len(args) THEN Ok(VNull, w)
   ELSE IF args[i].txt THEN DeferredPrint(cx, args, i + 1, w)
-  ELSE LET r == Force(cx, args[i].lz, w) IN IF ~r.ok THEN r ELSE DeferredPrint(cx, args, i + 1, r.w)
+  ELSE LET r == Force(cx, args[i].lz, w) IN
+       IF ~r.ok THEN r ELSE DeferredPrint(cx, args, i + 1, NoteText("print", <<r.v>>, r.w))
 
 EvalDeferred(cx, d, w) ==
   LET w0 == Poll(w, "evaluating statement") IN
@@ -402,12 +404,13 @@ NoLoc == <<-1, -1>>
 InitWorld(c, g0) ==
   [g |-> g0, ev |-> <<>>, np |-> 0, ca |-> c.cancel_at, cancel |-> FALSE,
    sc |-> [x \in {} |-> 0], store |-> <<>>, ss |-> [x \in {} |-> 0],
-   q |-> [edge |-> <<>>, attr |-> <<>>, print |-> <<>>], pd |-> [x \in {} |-> 0], unsup |-> <<>>]
+   q |-> [edge |-> <<>>, attr |-> <<>>, print |-> <<>>], pd |-> [x \in {} |-> 0], unsup |-> <<>>, gntext |-> FALSE]
 
 InitState(c, g0) ==
   [ph |-> "init", w |-> InitWorld(c, g0), ctl |-> <<>>, caps |-> [x \in {} |-> 0],
    cur |-> [st |-> NoLoc, nk |-> "", np |-> NoLoc, root |-> 0], si |-> 1, mi |-> 1, li |-> 1, qi |-> 1,
-   status |-> "run", err |-> [kind |-> "", chain |-> <<>>], glob |-> [x \in {} |-> 0], steps |-> 0]
+   status |-> "run", err |-> [kind |-> "", chain |-> <<>>], glob |-> [x \in {} |-> 0], steps |-> 0,
+   adm |-> {}, begun |-> <<>>]
 
 \* effective globals (check_globals): [ok, glob] | [ok |-> FALSE, kind]
 RECURSIVE CheckGlobals(_, _, _)
@@ -463,9 +466,16 @@ Unwind(s, ctl, i, e) ==
 Finish(s, w, status) == [s EXCEPT !.w = w, !.status = status, !.ph = "done", !.ctl = <<>>]
 
 \* an error raised while the control stack is `ctl`
+\* adm: the locations a report of this failure may cite as "the failing statement": the statements being
+\* executed at every block level (innermost = the failing one, the others enclose it) and the statements
+\* named by the contexts attached during lazy evaluation
 Fail(s, w, e, ctl) ==
-  LET e1 == Unwind(s, ctl, Len(ctl), e) IN
-  [s EXCEPT !.w = w, !.ph = "done", !.ctl = <<>>, !.err = e1,
+  LET e1 == Unwind(s, ctl, Len(ctl), e)
+      encl == {ctl[i].cl : i \in {j \in 1..Len(ctl) : ctl[j].f = "block"}}
+      cited == UNION {{e1.chain[i].stmts[j].sl : j \in 1..Len(e1.chain[i].stmts)} :
+                        i \in {k \in 1..Len(e1.chain) : e1.chain[k].ck = "stmt"}}
+  IN
+  [s EXCEPT !.w = w, !.ph = "done", !.ctl = <<>>, !.err = e1, !.adm = encl \cup cited,
             !.status = IF e1.kind = "Cancelled" THEN "cancelled" ELSE "err"]
 
 NewBlock(stmts, vars, rc, inscan, wrap) ==
@@ -500,7 +510,7 @@ StepBeginMatch(c, tr, s) ==
                       !.ctl = <<NewBlock(stz.stmts, EmptyMap, <<>>, FALSE, "stmt")>>,
                       !.caps = CapValues(c.matches[si], m),
                       !.cur = [st |-> stz.loc, nk |-> tr[m.root].kind, np |-> <<tr[m.root].sr, tr[m.root].sc>>, root |-> m.root],
-                      !.si = si, !.mi = mi + 1, !.li = s.li + 1]
+                      !.si = si, !.mi = mi + 1, !.li = s.li + 1, !.begun = Append(@, <<si, mi>>)]
 
 \* ---- step: a block frame on top
 StepBlock(c, tr, s) ==
